@@ -440,17 +440,39 @@ func serve(req *probeReq) *probeResp {
 	}
 	st := &seqState{poisoned: poisoned, stopAt: req.StopAt}
 	maps := defaultMaps
+	skipItems := false
 	if req.Chain != nil {
-		var ps [][]byte
-		for _, h := range req.Chain.PS {
-			ps = append(ps, unhex(h))
+		atomic.StoreInt64(&monItem, 0)
+		var ps0 []byte
+		if len(req.Chain.PS) > 0 {
+			ps0 = unhex(req.Chain.PS[0])
 		}
-		x := &runCtx{c: sk, in: ps[0], desc: "chain: parsing the hostile parameter sets", chain: req.Chain, seq: st, maps: defaultMaps}
-		maps = chainMaps(x, req.Chain.Codec, ps)
+		x := &runCtx{c: sk, in: ps0, desc: "chain: parsing the hostile parameter sets", chain: req.Chain, seq: st, maps: defaultMaps, mode: "chain-ps"}
+		if len(req.Items) > 0 {
+			x.desc = "chain: parsing the hostile parameter sets of: " + req.Items[0].Desc
+		}
+		var hostileOK bool
+		maps, hostileOK = chainMaps(x, req.Chain)
 		resp.NOps += x.nOps
+		if req.Chain.Sys {
+			// chain-ue: the dependent units only run with a hostile set the library accepted
+			if !hostileOK {
+				sk.Count("chain_ue_hostile_set_rejected", 1)
+				skipItems = true
+			} else {
+				sk.Count("chain_ue_hostile_set_accepted", 1)
+				sk.Seen("chain_ue_accepted_kind", req.Chain.Kind)
+				if req.Chain.Field != "" && req.Chain.Flip {
+					sk.Seen("chain_ue_accepted_with_first_bit_flipped_of", req.Chain.Kind+":"+req.Chain.Field)
+				} else if req.Chain.Field != "" {
+					sk.Seen("chain_ue_accepted_with_extreme_value_in", req.Chain.Kind+":"+req.Chain.Field)
+				}
+				resp.Accepted = append(resp.Accepted, runner.Hash64(ps0, []byte("chain-ue")))
+			}
+		}
 	}
 	for i, it := range req.Items {
-		if st.stopped {
+		if st.stopped || skipItems {
 			break
 		}
 		atomic.StoreInt64(&monItem, int64(i))
@@ -460,6 +482,8 @@ func serve(req *probeReq) *probeResp {
 			x.seiDirect(it.In, it.Types)
 		case "dependent":
 			x.runDependent(req.Chain.Codec)
+		case "sei-nal":
+			x.runSEINal()
 		default:
 			x.runOps()
 		}
